@@ -667,6 +667,40 @@ MUTANTS = [
             self._queue_count += 1""", """            self._queue_count += 1
             self._pending_work_items[self._queue_count] = w
             self._work_ids.put(self._queue_count - 1)""")),
+    # ---------------------------------------------------------------------- round-6 seeds and D24
+    M("afterfork-hook-bound-c-method", ["C14"], ["R-AFTER-FORK"],
+      (SY, """        def _after_fork(obj):
+            obj._semlock._after_fork()
+
+        util.register_after_fork(self, _after_fork)""", """        util.register_after_fork(self, self._semlock._after_fork)""")),
+    M("afterfork-hook-resets-nothing", ["C14"], ["R-AFTER-FORK"],
+      (SY, """        def _after_fork(obj):
+            obj._semlock._after_fork()
+""", """        def _after_fork(obj):
+            util.debug("after fork")
+""")),
+    M("afterfork-registry-not-cleared", ["C14"], ["R-AFTER-FORK"],
+      (PE, """mp.util.register_after_fork(_threads_wakeups, lambda obj: obj.clear())""",
+       """mp.util.register_after_fork(_threads_wakeups, lambda: _threads_wakeups.clear())""")),
+    M("killpath-factory-rebinds-kill-workers", ["C06"], ["R-KILL-PATH"],
+      (RE, '''                    elif executor._flags.shutdown:
+                        reason = "shutdown"''', '''                    elif executor._flags.shutdown:
+                        reason = "shutdown"
+                        kill_workers = False''')),
+    M("ctx-name-loky-overridden-by-default", ["C18"], ["R-CTX-NAME"],
+      (CX, '''    method = method or _DEFAULT_START_METHOD or "loky"''', '''    if not method or method == "loky":
+        method = _DEFAULT_START_METHOD or "loky"''')),
+    M("ctx-name-default-ignored", ["C18"], ["R-CTX-NAME"],
+      (CX, '''    method = method or _DEFAULT_START_METHOD or "loky"''', '''    method = method or "loky"''')),
+    M("tracker-chdir-root", ["C11", "C13"], ["R-RT-LOOP"],
+      (RT, """    if verbose:
+        util.debug("Main resource tracker is running")""", """    os.chdir(os.path.abspath(os.sep))
+    if verbose:
+        util.debug("Main resource tracker is running")""")),
+    M("popen-no-kill-D24", ["C02", "C06"], ["R-POPEN-API"],
+      (PP, """    def kill(self):
+        self._send_signal(signal.SIGKILL)
+""", "")),
     M("id-consumed-at-end-of-submit", ["C03"], ["R-ID"],
       (PE, """            self._pending_work_items[self._queue_count] = w
             self._work_ids.put(self._queue_count)
